@@ -83,6 +83,12 @@ impl Scheduler {
         threads[0].resume();
 
         loop {
+            if let Some(deadlock) = execution.deadlock.take() {
+                // The modeled threads are still suspended; they are not
+                // unwound (see `Execution::schedule`).
+                panic!("{}", deadlock);
+            }
+
             if execution.threads.is_complete() {
                 for thread in &mut threads {
                     thread.resume();
